@@ -289,6 +289,9 @@ def shapes(tier: str, pid: str):
         A(("calib", {"fmt": fmt, "cams": 0, "model": 0}))
         A(("calib", {"fmt": fmt, "cams": 1, "model": 3 if fmt == 1 else 1}))
         A(("calib", {"fmt": fmt, "cams": 2, "model": 2}))
+    if pid in ("C02", "C01"):
+        for dt in ("<i8", "<i4", "<u1"):
+            A(("calib", {"fmt": 1, "cams": 2, "model": 0, "map_dtype": dt}))
     A(("optical", {"channels": 0}))
     A(("optical", {"channels": 1, "lab": [2]}))
     A(("optical", {"channels": 2, "lab": [1, 30]}))
